@@ -89,6 +89,9 @@ PHI_FUNCS = ['convectionTVDupwindRHSTerm', 'linearSourceTerm', 'constantSourceTe
              'domainIntegral', 'plotprofile', 'copy', 'celleval']
 
 
+SRC_OF = {}      # id(variable) -> the variable it was updated from (dirty == 'updated')
+
+
 def build_call(name, rng, m, g, spec, dirty=None):
     """returns (callable taking the argument list, argument list, objects allowed to change (visible-only), mesh list)"""
     BC = gen.make_bc(pf, m, g, spec)
@@ -101,6 +104,12 @@ def build_call(name, rng, m, g, spec, dirty=None):
         phi.value = vals
     elif dirty == 'bc':
         phi.BCs.right.c = np.asarray(phi.BCs.right.c) + 0.75
+    elif dirty == 'updated':
+        # the variable received its values through update_value() from another variable, which lives on and is edited later
+        src_ = pf.CellVariable(m, vals * 0.5 + 1.0, gen.make_bc(pf, m, g, spec))
+        phi.update_value(src_)
+        vals = vals * 0.5 + 1.0
+        SRC_OF[id(phi)] = src_
     elif dirty == 'zeros':
         # coefficient fields with exactly vanishing cells (impermeable regions, empty cells): guards against 0/0 must not
         # touch the caller's arrays
@@ -235,6 +244,11 @@ def run_case(case):
                 bad.append(('nondeterministic', '%s on %s: two calls on equal inputs returned different bits' % (name, cls)))
             # same objects again (must still be pure)
             if 'SOLUTION' not in allowed:
+                for a_ in args:
+                    src_ = SRC_OF.pop(id(a_), None) if isinstance(a_, pf.CellVariable) else None
+                    if src_ is not None:
+                        src_.value = np.asarray(src_.value) * 3.0 - 2.0        # the source of update_value() is edited; the updated variable is not
+                        cov['update_source_edited'] = 1
                 ret3 = fn(args)
                 if canon(ret) != canon(ret3) and name not in ('solveExplicitPDE',):
                     bad.append(('nondeterministic', '%s on %s: repeated call on the same objects returned different bits' % (name, cls)))
@@ -373,7 +387,7 @@ def plan(tier, seed):
                 cases.append({'cls': cls, 'kind': 'call', 'func': fn, 'seed': [seed, 15, ci, i]})
                 i += 1
                 if fn in PHI_FUNCS:
-                    for dirty in ('value', 'bc', 'zeros'):
+                    for dirty in ('value', 'bc', 'zeros', 'updated'):
                         cases.append({'cls': cls, 'kind': 'call', 'func': fn, 'dirty': dirty, 'seed': [seed, 15, ci, i]})
                         i += 1
                 if fn in ('diffusionTerm', 'convectionTerm', 'convectionUpwindTerm', 'divergenceTerm', 'solveMatrixPDE', 'solvePDE', 'boundaryConditionsTerm',
@@ -400,7 +414,7 @@ def floors(agg, tier):
             out.append('purity_calls:%s < 9' % fn)
     if agg['cov'].get('solver_leak_probes', 0) < 9:
         out.append('solver_leak_probes < 9')
-    for k in ('input_state:zeros', 'geo:nano', 'geo:int', 'input_state:clean', 'input_state:value', 'input_state:bc', 'input_alias_probes', 'history_independence_calls'):
+    for k in ('input_state:updated', 'update_source_edited', 'input_state:zeros', 'geo:nano', 'geo:int', 'input_state:clean', 'input_state:value', 'input_state:bc', 'input_alias_probes', 'history_independence_calls'):
         if agg['cov'].get(k, 0) < 100:
             out.append('%s < 100' % k)
     if agg['cov'].get('reuse_loops', 0) < 9:
